@@ -149,8 +149,41 @@ def case_exp(H, g, f32=False):
             A = [[K[i][j] + (sgv if i == j else 0) for j in range(3)] for i in range(3)]
             RHS = [[es * Rod[i][j] - (1 if i == j else 0) for j in range(3)] for i in range(3)]
             AW, WA = T.mm(A, W), T.mm(W, A)
+            if sg is not None and not f32:
+                # sim3: the same characterisation in SCALAR form.  The code's W is C I + A K + B K^2 with scalar coefficient terms read
+                # off the output (A = -dW01/dphi2, B = d2W01/dphi0 dphi1, C = W00 + B (phi1^2 + phi2^2), abstraction variables held
+                # constant); that reading is validated entry by entry as a free polynomial identity (certificate).  With Z = sigma I + K and
+                # K^3 = -theta^2 K (lemma above):  Z W = W Z = sigma C I + (C + sigma A - theta^2 B) K + (A + sigma B) K^2, to be compared
+                # with (e^sigma - 1) I + e^sigma (sin theta/theta) K + e^sigma ((1 - cos theta)/theta^2) K^2.  As |K_ij| <= theta and
+                # |K^2_ij| <= theta^2, bounding the three scalar defects (times 1, theta, theta^2) bounds every matrix entry.
+                Ac = z3.simplify(-diff(W[0][1], ph[2]))
+                Bc = z3.simplify(diff(diff(W[0][1], ph[0]), ph[1]))
+                Cc_ = z3.simplify(W[0][0] + Bc * (ph[1] * ph[1] + ph[2] * ph[2]))
+                for i in range(3):
+                    for j in range(3):
+                        H.certify('%s/path%d/W==C.I+A.K+B.K^2[%d,%d]' % (name, pn, i, j), W[i][j],
+                                  Cc_ * (1 if i == j else 0) + Ac * K[i][j] + Bc * K2[i][j], [], hyps=hyp, key=key, replay=replay)
+                th2 = T.dot(ph, ph)
+                if small_theta:
+                    want_b, want_c = es, es / 2          # limits of e^sigma sin(theta)/theta and e^sigma (1 - cos theta)/theta^2
+                else:
+                    want_b, want_c = es * S / theta, es * (1 - Cc) / (theta * theta)
+                defects = [('I', sgv * Cc_ - (es - 1), z3.RealVal(1)), ('K', Cc_ + sgv * Ac - th2 * Bc - want_b, theta), ('K^2', Ac + sgv * Bc - want_c, th2)]
+                approx_ = small or small_W
+                tl = tolW if tolW is not None else tol
+                for nm_, dfc, wgt in defects:
+                    if approx_:
+                        H.prove('%s/path%d/(sigma.I+K).W-(e^sigma.R-I)/coefficient-of-%s/small-regime' % (name, pn, nm_), hyp,
+                                z3.And(dfc * wgt <= tl, dfc * wgt >= -tl), replay=replay, key=key, timeout=to,
+                                neg_margin=[z3.Or(dfc * wgt > z3.RealVal(mg), dfc * wgt < -z3.RealVal(mg)) for mg in ('1/1000', '1/1000000000')])
+                    else:
+                        H.certify('%s/path%d/(sigma.I+K).W-(e^sigma.R-I)/coefficient-of-%s' % (name, pn, nm_), dfc, z3.RealVal(0),
+                                  [theta * theta - th2, S * S + Cc * Cc - 1] + ([ctx.tfun('expm1', sg) - (es - 1)] if 'expm1' in str(dfc) else []),
+                                  hyps=hyp, replay=replay, key=key, timeout=to)
             for i in range(3):
                 for j in range(3):
+                    if sg is not None and not f32:
+                        break
                     eq('A.W==e^sigma.R-I[%d,%d]' % (i, j), AW[i][j], RHS[i][j], approx=(small or small_W), tol_=tolW)
                     eq('W.A==e^sigma.R-I[%d,%d]' % (i, j), WA[i][j], RHS[i][j], approx=(small or small_W), tol_=tolW)
             if sg is None:
